@@ -501,6 +501,11 @@ def Roi.isPoly : Roi → Bool
   | .poly _ => true
   | _ => false
 
+/-- A rectangle with ordered bounds (`xmin ≤ xmax`, `ymin ≤ ymax`). -/
+def Roi.isOrderedRect : Roi → Bool
+  | .rect xmin xmax ymin ymax _ _ => decide (xmin ≤ xmax) && decide (ymin ≤ ymax)
+  | _ => false
+
 /-- `(c, s)` is a unit vector (rectangle / ellipse). -/
 def Roi.unitOk : Roi → Bool
   | .rect _ _ _ _ c s => decide (c * c + s * s = 1)
@@ -520,16 +525,17 @@ def catsOk : Option (List Int) → Bool
 
 /-- Hypothesis of the main theorem `roi_selection`: well-kinded inputs as the viewers produce
 them, and — when exactly one axis is categorical and the region goes through its polygon — the
-region is a polygon (for circles / ellipses / rotated rectangles the statement proved is about
-`to_polygon()`, see `polygonised_cat_num`). -/
+region is a polygon or a rotated rectangle with ordered bounds (for circles / ellipses / ranges sent
+down that path the statement proved is about `to_polygon()`, see `polygonised_cat_num`). -/
 def inScope (r : Roi) (xc yc : Option (List Int)) (usePre : Bool) (pre : Option Affine) (e : Elem) : Bool :=
   catsOk xc && catsOk yc && valOk xc e.x && valOk yc e.y && r.unitOk &&
   -- a pretransform is attached only to a numeric-numeric `RoiSubsetState` requested with use_pretransform
   (pre.isNone || (usePre && xc.isNone && yc.isNone)) &&
   -- categorical regions act on a categorical x axis
   (!r.isCategorical || xc.isSome) &&
-  -- exactly one categorical axis + polygon-like region: proved for polygons
-  (!(isPolygonLike r usePre && (xc.isSome != yc.isSome)) || r.isPoly)
+  -- exactly one categorical axis + polygon-like region: proved for polygons and for rotated
+  -- rectangles with ordered bounds
+  (!(isPolygonLike r usePre && (xc.isSome != yc.isSome)) || r.isPoly || r.isOrderedRect)
 
 /-- Element in the boundary band (excluded from the comparison). -/
 def specNear (ε : Rat) (r : Roi) (xc yc : Option (List Int)) (pre : Option Affine)
